@@ -770,6 +770,13 @@ func run(tapeJSON json.RawMessage, res *core.Result) {
 					lastSixth := false // judged on the newest TGT issued before the call
 					for _, is := range issues {
 						if is.SName == "krbtgt/SIM.TEST" && is.Realm == "SIM.TEST" && at(is.At) <= r.Invoke {
+							lost := false // issued during an outage that loses the replies: the client never held it
+							for _, o := range outages {
+								lost = lost || (at(is.At) >= o[0] && (o[1] < 0 || at(is.At) < o[1]))
+							}
+							if lost {
+								continue
+							}
 							lastSixth = r.Return >= at(is.At)+int64(is.End.Sub(is.At))*5/6
 						}
 					}
